@@ -652,6 +652,56 @@ func TestMessageAlias(t *testing.T) {
 	evid.Exhaustive("write form x spelling x message value: reads through both spellings", n)
 }
 
+// TestValuelessAssignment: `NAME = <expression without a value>` is an assignment like any other: NAME becomes (or
+// stays) a variable of the current block that reads as nil - it hides a point key of that name, is what nested
+// blocks update, and vanishes with its block.
+func TestValuelessAssignment(t *testing.T) {
+	voids := []struct {
+		name string
+		e    func() *gen.Node
+	}{
+		{"pvoid()", func() *gen.Node { return gen.NCall("pvoid") }},
+		{"probe()", func() *gen.Node { return gen.NCall("probe", gen.NStr("as-value")) }},
+		{"drop_key", func() *gen.Node { return gen.NCall("drop_key", id("other")) }},
+		{"add_key", func() *gen.Node { return gen.NCall("add_key", id("made"), gen.NInt(1)) }},
+		{"set_tag", func() *gen.Node { return gen.NCall("set_tag", id("tg"), gen.NStr("v")) }},
+		{"attribute", func() *gen.Node { return gen.NAttr(id("o"), id("fld")) }},
+	}
+	reads := func(n string) []*gen.Node {
+		return []*gen.Node{gen.NCall("probe", gen.NStr("read"), id(n)),
+			gen.NIf([]*gen.Node{id(n), gen.NBin("==", id(n), gen.NNil())}, [][]*gen.Node{{gen.NCall("probe", gen.NStr("truthy"))}, {gen.NCall("probe", gen.NStr("is-nil"))}}, []*gen.Node{gen.NCall("probe", gen.NStr("neither"))}, true),
+			gen.NCall("add_key", id("seen"), id(n))}
+	}
+	blocks := []func(b []*gen.Node) *gen.Node{
+		func(b []*gen.Node) *gen.Node { return gen.NIf([]*gen.Node{gen.NBool(true)}, [][]*gen.Node{b}, nil, false) },
+		func(b []*gen.Node) *gen.Node { return gen.NForIn("it", gen.NList(gen.NInt(1), gen.NInt(2)), b) },
+		func(b []*gen.Node) *gen.Node {
+			return gen.NFor(gen.NSet("it", gen.NInt(0)), gen.NBin("<", id("it"), gen.NInt(2)), gen.NSet("it", gen.NBin("+", id("it"), gen.NInt(1))), b)
+		},
+	}
+	n := 0
+	for _, v := range voids {
+		for _, name := range []string{"k", "fresh"} { // k is a key of the point, fresh is not
+			for form := 0; form < 5; form++ {
+				var prog []*gen.Node
+				switch form {
+				case 0: // at the top level, read afterwards
+					prog = append([]*gen.Node{gen.NSet(name, v.e())}, reads(name)...)
+				case 1, 2, 3: // a nested block assigns the name: it updates the variable made by the value-less assignment
+					prog = append([]*gen.Node{gen.NSet(name, v.e()), blocks[form-1]([]*gen.Node{gen.NSet(name, gen.NInt(2)), gen.NCall("probe", gen.NStr("inside"), id(name))})}, reads(name)...)
+				default: // made inside a block: gone after it; an existing variable is overwritten with nil
+					prog = append([]*gen.Node{gen.NSet("v0", gen.NInt(5)), gen.NIf([]*gen.Node{gen.NBool(true)}, [][]*gen.Node{{gen.NSet(name, v.e()), gen.NSet("v0", v.e()), gen.NCall("probe", gen.NStr("inside"), id(name), id("v0"))}}, nil, false), gen.NCall("probe", gen.NStr("v0"), id("v0"))}, reads(name)...)
+				}
+				c := sem.NewCase(gen.FixAll(prog))
+				c.Fields = map[string]any{"k": int64(7), "other": "o"}
+				judge(t, "valueless-assign", c, true, "valueless-assignment/"+v.name)
+				n++
+			}
+		}
+	}
+	evid.Exhaustive("value-less right side x {point key, fresh name} x {top level, updated from if / for-in / for, made inside a block}", n)
+}
+
 // TestEmptyBranchTable: a truthy branch with an empty block still ends the statement.
 func TestEmptyBranchTable(t *testing.T) {
 	n := 0
